@@ -1328,6 +1328,9 @@ func (t *tracker) observeCmd(c *Cmd, before *Dump) {
 	}
 	write := func(node string, sp *SvcSpec) {
 		defer pairsTwice()
+		if o, ok := ups[node+"/"+sp.ID]; ok && strings.Join(o, ",") != strings.Join(sp.Ups, ",") {
+			t.flags["upstreams-changed"] = true
+		}
 		ups[node+"/"+sp.ID] = sp.Ups
 		d := def{sp.Name, sp.Kind, "", sp.Native}
 		if sp.Kind == "connect-proxy" {
@@ -1382,16 +1385,18 @@ func (t *tracker) cause(f *OracleFail) string {
 			return "instance-renamed-to-or-from-consul"
 		}
 	case "vip-advertised":
-		// the class the partial theorem excludes: the advertising instance is a sidecar proxy
-		if f.Sub == "service-has-no-assignment:proxy" || f.Sub == "differs-from-assignment:proxy" {
-			return "proxy-outlived-assignment"
-		}
+		// no excluded class: since /repo 8e1bd1c the advertised address of every instance (sidecar
+		// proxies included) must be its service's assignment
+		return ""
 	case "topology":
 		if strings.HasPrefix(f.Sub, "api-") {
 			return ""
 		}
-		if t.flags["pair-declared-twice"] || t.flags["instance-redefined"] || t.flags["wildcard-gateway"] {
-			return "pair-shared-or-instance-redefined-or-wildcard-gateway"
+		// a pair declared by two instances is fine by itself (since /repo acb191c); what is still
+		// excluded: an instance dropped an upstream of such a pair, an instance was redefined, or a
+		// wildcard gateway is around
+		if (t.flags["pair-declared-twice"] && t.flags["upstreams-changed"]) || t.flags["instance-redefined"] || t.flags["wildcard-gateway"] {
+			return "upstream-dropped-or-instance-redefined-or-wildcard-gateway"
 		}
 	case "gateway-services":
 		if strings.HasPrefix(f.Sub, "api-") {
@@ -1841,7 +1846,9 @@ func runScript(id int, mix string, script []Cmd, g *gen, n int) History {
 	return h
 }
 
-// corpus: the minimised failing histories (the witnesses of coq/Catalog/Refuted.v), run first on every run
+// corpus: the minimised histories of coq/Catalog/Refuted.v, run first on every run: the witnesses of the open
+// findings (must fail as recorded) and the regression cases of the repaired ones (vip-proxy-outlives-assignment,
+// topology-pair-declared-twice: must not fail any more)
 func corpus() map[string][]Cmd {
 	reg := func(idx uint64, node string, sp *SvcSpec) Cmd {
 		return Cmd{Kind: "register", Idx: idx, Node: node, Addr: 1, Svc: sp}
@@ -1879,6 +1886,12 @@ func corpus() map[string][]Cmd {
 			reg(3, "n1", proxy("s1", "web-proxy", "web", "db")),
 			reg(4, "n2", proxy("s1", "web-proxy", "web", "db")),
 			{Kind: "deregister", Idx: 5, Node: "n2", SvcID: "s1"},
+		},
+		// still failing: the second instance stops listing the upstream and the pair goes although n1 declares it
+		"topology-upstream-dropped": {
+			reg(3, "n1", proxy("s1", "web-proxy", "web", "db")),
+			reg(4, "n2", proxy("s1", "web-proxy", "web", "db")),
+			reg(5, "n2", proxy("s1", "web-proxy", "web")),
 		},
 		"gateway-listed-service-overwritten-by-wildcard": {
 			{Kind: "conf_set", Idx: 3, Conf: &Conf{Kind: structs.TerminatingGateway, Name: "tgw", Services: []string{"web", "*"}}},
